@@ -478,6 +478,7 @@ def c_cases(batch, limit=2048, truncations=True):
         parts.append(c_case(i, sk, limit, truncations))
     parts.append("#define NCASES %d" % len(batch))
     parts.append("#define FOR_EACH_CASE(F) " + " ".join("F(%d, &XC_%d);" % (i, i) for i in range(len(batch))))
+    parts.append("#define FOR_EACH_PAIR(F) " + " ".join("F(%d, &XC_%d, &XC_%d);" % (i, i, (i + 1) % len(batch)) for i in range(len(batch))))
     parts.append("#define MAX_SK %d" % max(len(s["bytes"]) for s in batch))
     parts.append("#define MAX_NODES %d" % max([len(s["outcome"].nodes) for s in batch] + [1]))
     parts.append("#define MAX_DEPTH %d" % max(s["outcome"].depth for s in batch))
